@@ -19,9 +19,12 @@ theories/L2/Base.vos theories/L2/Base.vok theories/L2/Base.required_vos: theorie
 theories/L2/Own.vo theories/L2/Own.glob theories/L2/Own.v.beautified theories/L2/Own.required_vo: theories/L2/Own.v theories/L2/Model.vo theories/L2/Base.vo
 theories/L2/Own.vio: theories/L2/Own.v theories/L2/Model.vio theories/L2/Base.vio
 theories/L2/Own.vos theories/L2/Own.vok theories/L2/Own.required_vos: theories/L2/Own.v theories/L2/Model.vos theories/L2/Base.vos
-theories/L2/InstOwn.vo theories/L2/InstOwn.glob theories/L2/InstOwn.v.beautified theories/L2/InstOwn.required_vo: theories/L2/InstOwn.v theories/L2/Model.vo theories/L2/Base.vo theories/L2/Own.vo theories/L2/Inst.vo gen/Tables.vo
-theories/L2/InstOwn.vio: theories/L2/InstOwn.v theories/L2/Model.vio theories/L2/Base.vio theories/L2/Own.vio theories/L2/Inst.vio gen/Tables.vio
-theories/L2/InstOwn.vos theories/L2/InstOwn.vok theories/L2/InstOwn.required_vos: theories/L2/InstOwn.v theories/L2/Model.vos theories/L2/Base.vos theories/L2/Own.vos theories/L2/Inst.vos gen/Tables.vos
+theories/L2/InstOwn.vo theories/L2/InstOwn.glob theories/L2/InstOwn.v.beautified theories/L2/InstOwn.required_vo: theories/L2/InstOwn.v theories/L2/Model.vo theories/L2/Base.vo theories/L2/Own.vo theories/L2/Inst.vo gen/Tables.vo theories/L2/Jobs.vo
+theories/L2/InstOwn.vio: theories/L2/InstOwn.v theories/L2/Model.vio theories/L2/Base.vio theories/L2/Own.vio theories/L2/Inst.vio gen/Tables.vio theories/L2/Jobs.vio
+theories/L2/InstOwn.vos theories/L2/InstOwn.vok theories/L2/InstOwn.required_vos: theories/L2/InstOwn.v theories/L2/Model.vos theories/L2/Base.vos theories/L2/Own.vos theories/L2/Inst.vos gen/Tables.vos theories/L2/Jobs.vos
 theories/L2/Jobs.vo theories/L2/Jobs.glob theories/L2/Jobs.v.beautified theories/L2/Jobs.required_vo: theories/L2/Jobs.v theories/L2/Model.vo theories/L2/Base.vo theories/L2/Own.vo
 theories/L2/Jobs.vio: theories/L2/Jobs.v theories/L2/Model.vio theories/L2/Base.vio theories/L2/Own.vio
 theories/L2/Jobs.vos theories/L2/Jobs.vok theories/L2/Jobs.required_vos: theories/L2/Jobs.v theories/L2/Model.vos theories/L2/Base.vos theories/L2/Own.vos
+theories/L2/Wake.vo theories/L2/Wake.glob theories/L2/Wake.v.beautified theories/L2/Wake.required_vo: theories/L2/Wake.v theories/L2/Model.vo theories/L2/Base.vo theories/L2/Own.vo theories/L2/Jobs.vo
+theories/L2/Wake.vio: theories/L2/Wake.v theories/L2/Model.vio theories/L2/Base.vio theories/L2/Own.vio theories/L2/Jobs.vio
+theories/L2/Wake.vos theories/L2/Wake.vok theories/L2/Wake.required_vos: theories/L2/Wake.v theories/L2/Model.vos theories/L2/Base.vos theories/L2/Own.vos theories/L2/Jobs.vos
